@@ -10,7 +10,7 @@ import (
 
 // RaceReport is one "WARNING: DATA RACE" block of a GORACE log.
 type RaceReport struct {
-	Key    string   // "A <-> B": innermost library frames of the two accesses, sorted
+	Key    string // "A <-> B": innermost library frames of the two accesses, sorted
 	Frames [2]string
 	Kinds  [2]string // read | write | ...
 	Text   string
@@ -113,23 +113,23 @@ const (
 )
 
 const (
-	fnRebalInc   = "structures.(*IncrementalRebalancer).rebalanceIncremental"
-	fnGetProg    = "structures.(*IncrementalRebalancer).GetProgress"
-	fnIRStart    = "structures.(*IncrementalRebalancer).Start"
-	fnIRStop     = "structures.(*IncrementalRebalancer).Stop"
-	fnIRLoop     = "structures.(*IncrementalRebalancer).rebalancingLoop"
-	fnBatch      = "structures.(*WritableBTreeV2).BatchRebalance"
-	fnLazyOn     = "structures.(*WritableBTreeV2).EnableLazyRebalancing"
-	fnLazyOff    = "structures.(*WritableBTreeV2).DisableLazyRebalancing"
-	fnIncOn      = "structures.(*WritableBTreeV2).EnableIncrementalRebalancing"
-	fnIncOff     = "structures.(*WritableBTreeV2).StopIncrementalRebalancing"
-	fnIncProg    = "structures.(*WritableBTreeV2).GetIncrementalRebalancingProgress"
-	fnIsInc      = "structures.(*WritableBTreeV2).IsIncrementalRebalancingEnabled"
-	fnSelect     = "rebalancing.(*ConfigSelector).SelectConfig"
-	fnSRStart    = "rebalancing.(*SmartRebalancer).Start"
-	fnSRStop     = "rebalancing.(*SmartRebalancer).Stop"
-	fnSRLoop     = "rebalancing.(*SmartRebalancer).monitorLoop"
-	fnSRApply    = "rebalancing.(*SmartRebalancer).applyDecision"
+	fnRebalInc = "structures.(*IncrementalRebalancer).rebalanceIncremental"
+	fnGetProg  = "structures.(*IncrementalRebalancer).GetProgress"
+	fnIRStart  = "structures.(*IncrementalRebalancer).Start"
+	fnIRStop   = "structures.(*IncrementalRebalancer).Stop"
+	fnIRLoop   = "structures.(*IncrementalRebalancer).rebalancingLoop"
+	fnBatch    = "structures.(*WritableBTreeV2).BatchRebalance"
+	fnLazyOn   = "structures.(*WritableBTreeV2).EnableLazyRebalancing"
+	fnLazyOff  = "structures.(*WritableBTreeV2).DisableLazyRebalancing"
+	fnIncOn    = "structures.(*WritableBTreeV2).EnableIncrementalRebalancing"
+	fnIncOff   = "structures.(*WritableBTreeV2).StopIncrementalRebalancing"
+	fnIncProg  = "structures.(*WritableBTreeV2).GetIncrementalRebalancingProgress"
+	fnIsInc    = "structures.(*WritableBTreeV2).IsIncrementalRebalancingEnabled"
+	fnSelect   = "rebalancing.(*ConfigSelector).SelectConfig"
+	fnSRStart  = "rebalancing.(*SmartRebalancer).Start"
+	fnSRStop   = "rebalancing.(*SmartRebalancer).Stop"
+	fnSRLoop   = "rebalancing.(*SmartRebalancer).monitorLoop"
+	fnSRApply  = "rebalancing.(*SmartRebalancer).applyDecision"
 )
 
 type pairSet struct {
@@ -186,9 +186,31 @@ func lifecycleThreads(c Case) int {
 	return n
 }
 
+// stopsWhilePolled reports whether a btree program has stop requests in its foreground list and a polling goroutine.
+func stopsWhilePolled(c Case) bool {
+	stops, polls := false, false
+	for _, th := range c.Threads {
+		for _, op := range th.Ops {
+			if th.Role == "fg" && (op.K == "stop" || op.K == "lazyoff") {
+				stops = true
+			}
+			if th.Role == "poll" && (op.K == "prog" || op.K == "isinc") {
+				polls = true
+			}
+		}
+	}
+	return stops && polls
+}
+
 // panicID matches a concurrency-only panic against the open findings: the WaitGroup misuse panics raised inside
 // SmartRebalancer.Start/Stop when at least two goroutines drive the lifecycle.
 func panicID(c Case, p *PanicInfo) string {
+	// KF-C18-02, second symptom: the query methods test bt.incrementalRebalancer for nil and then read the field
+	// again; a stop request in between makes the second read nil.
+	if c.Kind == "btree" && stopsWhilePolled(c) && strings.Contains(p.Msg, "nil pointer dereference") &&
+		(p.Frame == fnGetProg || p.Frame == fnIsInc || p.Frame == fnIncProg) {
+		return kfHandle
+	}
 	if c.Kind == "smart" && lifecycleThreads(c) >= 2 && strings.Contains(p.Msg, "WaitGroup") && (p.Frame == fnSRStop || p.Frame == fnSRStart) {
 		return kfSmartLife
 	}
